@@ -497,7 +497,8 @@ def _wrun(pid, tier, seed, clause, cases):
 
 def key_ints(seed: int, n: int, salt: int = 0) -> list[int]:
     """The finite key alphabet K: integers fed to jax.random.key."""
-    return [seed * 1000 + salt * 100 + i for i in range(n)]
+    # kept inside int32 (keys are also fed to jnp.asarray): identical to seed*1000 + salt*100 + i for every seed below 2^31/1000
+    return [(seed * 1000 + salt * 100 + i) % (2**31 - 1) for i in range(n)]
 
 
 def main(argv=None) -> int:
@@ -512,6 +513,7 @@ def main(argv=None) -> int:
     args = ap.parse_args(argv)
     pid = args.prop.upper()
     tier = args.tier if args.tier in ("quick", "thorough") else "quick"
+    args.seed = abs(int(args.seed)) % 1_000_003  # key alphabets are derived as seed * 1000 + i and fed to int32 arrays: keep them in range
     if os.environ.get("VERIF_FAULTLOG"):  # development aid: where did a native crash happen?
         import faulthandler
 
